@@ -138,6 +138,7 @@ struct St {
     shared: *mut Shared,
     int_vars: Vec<Int>,
     n_abstract: u32,
+    round_memo: HashMap<(Real, u32, bool), Real>,
 }
 
 thread_local! {
@@ -208,6 +209,7 @@ fn with<R>(f: impl FnOnce(&mut St) -> R) -> R {
                 shared,
                 int_vars: vec![],
                 n_abstract: 0,
+                round_memo: HashMap::new(),
             });
         }
         f(b.as_mut().unwrap())
@@ -765,6 +767,11 @@ impl Decimal {
                     );
                     let ulp = Q::new(BigInt::from(if half { 1 } else { 2 }), Q::pow10(dp) * 2);
                     let e = qreal(&ulp);
+                    // the same term rounded twice is the same value (rounding is a function)
+                    let key = (r.clone(), dp, half);
+                    if let Some(v) = with(|s| s.round_memo.get(&key).cloned()) {
+                        return push(Val::S(v));
+                    }
                     let n = with(|s| {
                         s.n_abstract += 1;
                         s.n_abstract
@@ -775,6 +782,7 @@ impl Decimal {
                     with(|s| {
                         s.solver.assert(&c);
                         s.pc.push(c.clone());
+                        s.round_memo.insert(key, v.clone());
                     });
                     push(Val::S(v))
                 } else {
